@@ -42,7 +42,11 @@ pub fn compile_sources(
   let mut error_set = samlang_errors::ErrorSet::new();
   let mut parsed_sources = std::collections::HashMap::new();
   samlang_profiling::measure_time(enable_profiling, "Parsing", || {
-    for (module_reference, source) in &source_handles {
+    // Parsing interns strings, and long strings are ordered by the order in which they were
+    // interned. Do not let that order follow the hash map's per-process iteration order.
+    let mut ordered_sources = source_handles.iter().collect::<Vec<_>>();
+    ordered_sources.sort_by_key(|(module_reference, _)| **module_reference);
+    for (module_reference, source) in ordered_sources {
       let parsed = samlang_parser::parse_source_module_from_text(
         source,
         *module_reference,
